@@ -204,7 +204,9 @@ pub fn run(case: &str) -> String {
     if cfg.len() != 6 {
         return "error:bad-config".into();
     }
-    let rev = cfg[0] == "1";
+    // 1 = --layout=reverse, 2 = --layout=reverse-list (the list widget treats both as top-down)
+    let rev = cfg[0] == "1" || cfg[0] == "2";
+    let layout_name = if cfg[0] == "2" { "reverse-list" } else { "reverse" };
     let tabstop = cfg[1].to_string();
     let no_hscroll = cfg[2] == "1";
     let keep_right = cfg[3] == "1";
@@ -230,7 +232,7 @@ pub fn run(case: &str) -> String {
     let mut options = SkimOptionsBuilder::default().build().unwrap();
     options.multi = true;
     if rev {
-        options.layout = "reverse";
+        options.layout = layout_name;
     }
     options.tabstop = Some(&tabstop);
     options.no_hscroll = no_hscroll;
